@@ -225,6 +225,12 @@ inductive Op where
   -- an event outside the descriptors: an instance without relations dies, a new instance is created (possibly at
   -- the same address), dead nodes are swept from the symbol graph — nothing among the live instances changes
   | churn
+  -- F-C15-2: `add_relation_to_the_graph` tests `if domain_value and range_value` (truthiness): a write in which the
+  -- owner or the written element is falsy at that moment (`__len__() == 0` / `__bool__() == False`) is stored in
+  -- the field and NOT asserted. `storeOnly`: such a `s.f = t` / append / add; `assignQ f s xs muted`: a collection
+  -- assignment whose elements in `muted` are stored only (all of them when the owner is falsy).
+  | storeOnly (f s t : Nat)
+  | assignQ (f s : Nat) (xs muted : List Nat)
   deriving Repr, DecidableEq
 
 /-- `list.append` / `set.add` on the raw contents -/
@@ -247,6 +253,13 @@ def step (R : Rules) (K : Nat → Kind) (n : Nat) (σ : State) : Op → State
     let σ0 : State := { σ with st := σ.st.set f s [], clob := σ.clob || !(σ.st f s).isEmpty }
     (hashOrder xs).foldl (fun h t => addItem R K n h f s t) σ0
   | .churn => σ
+  | .storeOnly f s t =>
+    { σ with st := σ.st.set f s (match K f with | .single => [t] | k => storeAdd k (σ.st f s) t) }
+  | .assignQ f s xs muted =>
+    let σ0 : State := { σ with st := σ.st.set f s [], clob := σ.clob || !(σ.st f s).isEmpty }
+    (hashOrder xs).foldl (fun h t =>
+      if muted.contains t then { h with st := h.st.set f s (storeAdd (K f) (h.st f s) t) }
+      else addItem R K n h f s t) σ0
 
 def State.init : State := { g := [], st := ⟨[]⟩, clob := false }
 
@@ -259,6 +272,8 @@ def Op.facts : Op → List Fact
   | .add f s t => [(f, s, t)]
   | .assign f s xs => (hashOrder xs).map fun t => (f, s, t)
   | .churn => []
+  | .storeOnly _ _ _ => []
+  | .assignQ f s xs muted => ((hashOrder xs).filter fun t => !muted.contains t).map fun t => (f, s, t)
 
 def asserted (ops : List Op) : List Fact := ops.flatMap Op.facts
 
@@ -268,6 +283,8 @@ def Op.wellKinded (K : Nat → Kind) : Op → Bool
   | .add f _ _ => K f != .single
   | .assign f _ _ => K f != .single
   | .churn => true
+  | .storeOnly _ _ _ => false   -- a store without its relation: outside `C15_fields_agree` (trigger of F-C15-2)
+  | .assignQ _ _ _ _ => false
 
 /-- the model of the code on a history: graph, backing fields, clobber flag -/
 def runModel (S : Schema) (W : World) (ops : List Op) : State :=
@@ -286,12 +303,20 @@ structure Quirks where
   setterHashOrder : Bool     -- F-C16-3: `__set__` copies through `make_set` (no repetitions, hash order)
   inplaceBypass : Bool       -- F-C16-4: inherited `list.__iadd__` / `set.__ior__` add without the hook
   sliceBatchHook : Bool      -- F-C16-7 / F-C16-8: `l[i:j] = value` hands the whole value to the hook BEFORE storing it
+  -- F-C16-9: `add_relation_to_the_graph` tests `if domain_value and range_value` — TRUTHINESS. At this step the
+  -- hook records nothing for the elements in `muted` (instances that are falsy right now: `__len__() == 0` /
+  -- `__bool__() == False`) and nothing at all when `muteAll` (the owner is falsy). Repaired = `[]`, `false`.
+  muted : List Nat
+  muteAll : Bool
   deriving Repr, DecidableEq
 
-def Quirks.asIs : Quirks := ⟨true, true, true, true⟩
-def Quirks.none : Quirks := ⟨false, false, false, false⟩
+def Quirks.asIs : Quirks := ⟨true, true, true, true, [], false⟩
+def Quirks.none : Quirks := ⟨false, false, false, false, [], false⟩
+/-- what the hook actually records of the elements handed to it -/
+def Quirks.recorded (Q : Quirks) (xs : List Nat) : List Nat :=
+  xs.filter fun x => !Q.muteAll && !Q.muted.contains x
 /-- the code as it is now (F-C16-1..4 repaired, slice assignment not) -/
-def Quirks.now : Quirks := ⟨false, false, false, true⟩
+def Quirks.now : Quirks := ⟨false, false, false, true, [], false⟩
 
 /-- `super().append(x)` / `super().add(x)`. `key o` is the value object `o` compares by (`==` / `hash`): a list
 stores by position and identity, a set keeps the FIRST of several elements that compare equal (Python set
@@ -374,7 +399,8 @@ def noEqualTwins (key : Nat → Nat) (xs : List Nat) : Bool :=
   xs.all fun x => xs.all fun y => key x != key y || x == y
 
 /-- `_add_item(x)`: `_on_add` (hook), then the raw add -/
-def addItemC (key : Nat → Nat) (isSet : Bool) (σ : CState) (x : Nat) : CState := ⟨rawAdd key isSet σ.c x, σ.calls ++ [x]⟩
+def addItemC (key : Nat → Nat) (Q : Quirks) (isSet : Bool) (σ : CState) (x : Nat) : CState :=
+  ⟨rawAdd key isSet σ.c x, σ.calls ++ Q.recorded [x]⟩
 
 /-- the order in which `__set__` walks the assigned value -/
 def walkOrder (Q : Quirks) (xs : List Nat) : List Nat :=
@@ -387,28 +413,35 @@ def setterC (key : Nat → Nat) (Q : Quirks) (isSet : Bool) (σ : CState) (v : A
     | .other xs => walkOrder Q xs
     -- repaired: `list(value)` is taken before `_clear()`; with the quirk the iterable is consumed after it
     | .lazyOf v => walkOrder Q (v.eval key (if Q.setterClearsAlias then [] else σ.c))
-  items.foldl (addItemC key isSet) ⟨[], σ.calls⟩
+  items.foldl (addItemC key Q isSet) ⟨[], σ.calls⟩
 
 /-- `list.__iadd__` / `set.__ior__` -/
 def inplaceC (key : Nat → Nat) (Q : Quirks) (isSet : Bool) (σ : CState) (xs : List Nat) : CState :=
-  if Q.inplaceBypass then ⟨xs.foldl (rawAdd key isSet) σ.c, σ.calls⟩ else xs.foldl (addItemC key isSet) σ
+  if Q.inplaceBypass then ⟨xs.foldl (rawAdd key isSet) σ.c, σ.calls⟩ else xs.foldl (addItemC key Q isSet) σ
 
 def stepC (key : Nat → Nat) (Q : Quirks) (isSet : Bool) (σ : CState) : COp → CState
-  | .append x => addItemC key isSet σ x
-  | .extend xs => xs.foldl (addItemC key isSet) σ
-  | .insert i x => ⟨pyInsert σ.c i x, σ.calls ++ [x]⟩       -- `_on_add`, then `list.insert`
-  | .setitem i x => ⟨pySetItem σ.c i x, σ.calls ++ [x]⟩     -- `_on_add`, then `list.__setitem__`
+  | .append x => addItemC key Q isSet σ x
+  | .extend xs => xs.foldl (addItemC key Q isSet) σ
+  | .insert i x => ⟨pyInsert σ.c i x, σ.calls ++ Q.recorded [x]⟩       -- `_on_add`, then `list.insert`
+  | .setitem i x => ⟨pySetItem σ.c i x, σ.calls ++ Q.recorded [x]⟩     -- `_on_add`, then `list.__setitem__`
   | .setslice i j oneShot xs =>
     if Q.sliceBatchHook then
       -- `value = self._on_add(value)`: `add_relation_to_the_graph(owner, value)` walks `make_set(value)` — one
       -- relation per VALUE (the first of equal elements), and a one-shot iterable is used up — then the store
-      ⟨pySetSlice σ.c i j (if oneShot then [] else xs), σ.calls ++ xs.foldl (rawAdd key true) []⟩
-    else ⟨pySetSlice σ.c i j xs, σ.calls ++ xs⟩
+      ⟨pySetSlice σ.c i j (if oneShot then [] else xs), σ.calls ++ Q.recorded (xs.foldl (rawAdd key true) [])⟩
+    else ⟨pySetSlice σ.c i j xs, σ.calls ++ Q.recorded xs⟩
   | .assign xs => setterC key Q isSet σ (.other xs)
   | .assignSelf => setterC key Q isSet σ .same
   | .assignView v => setterC key Q isSet σ (.lazyOf v)
   | .iadd xs => setterC key Q isSet (inplaceC key Q isSet σ xs) .same   -- `t = a.f.__iadd__(xs); a.f = t`
   | .iaddAlias xs => inplaceC key Q isSet σ xs
+
+/-- a run in which every step has its own quirk record: the truthiness gate (`muted`, `muteAll`) depends on which
+instances are falsy at that step -/
+def runG (key : Nat → Nat) (isSet : Bool) (σ : CState) (steps : List (Quirks × COp)) : CState :=
+  steps.foldl (fun τ qo => stepC key qo.1 isSet τ qo.2) σ
+
+def Quirks.ungated (Q : Quirks) : Bool := Q.muted.isEmpty && !Q.muteAll
 
 def runC (key : Nat → Nat) (Q : Quirks) (isSet : Bool) (σ : CState) (ops : List COp) : CState := ops.foldl (stepC key Q isSet) σ
 
